@@ -238,10 +238,10 @@ pub fn dec_ops(u: &mut Unstructured, keys: &[String]) -> Vec<c06::Op> {
 			21 => Op::IterMutSet(u.int_in_range(0usize..=80).unwrap_or(0), v),
 			22 => Op::GetMutSet(dec_key(u, keys), u.int_in_range(0usize..=2).unwrap_or(0), v),
 			_ => {
-				if u.arbitrary::<bool>().unwrap_or(false) {
-					Op::CloneContinue
-				} else {
-					Op::CloneKeep
+				match u.int_in_range(0u8..=2).unwrap_or(0) {
+					0 => Op::CloneContinue,
+					1 => Op::CloneKeep,
+					_ => Op::CloneFromInto(u.int_in_range(0usize..=60).unwrap_or(0)),
 				}
 			}
 		};
